@@ -1148,6 +1148,27 @@ func pbkdf2Key(x *Exec, fn *ssa.Function, a []Value) Value {
 		n := BVi(int64(len(key)), 64)
 		return SliceV{Obj: o, Off: BVi(0, 64), Len: n, Cap: n}
 	}
+	if klen.IsConst() && klen.Int64() <= 128 && iter.IsConst() {
+		// the result is an unknown but fixed function of the arguments: one bit-vector variable per
+		// distinct argument tuple (named by a hash of the rendered arguments), cut into bytes. The
+		// slice is an ordinary fresh array, so callers may modify it and aliasing is visible.
+		render := func(v Value) string {
+			if sv, ok := v.(string); ok {
+				return strconv.Quote(sv)
+			}
+			return renderAtoms(toAtoms(v))
+		}
+		h := sha256sum([]byte(render(pw) + "|" + render(salt) + "|" + iter.Val.String() + "|" + klen.Val.String() + "|" + hname))
+		n := int(klen.Int64())
+		kv := Var(fmt.Sprintf("K_%x", h[:10]), 8*n)
+		arr := &ArrV{Elems: make([]Value, n)}
+		for i := 0; i < n; i++ {
+			lo := 8 * (n - 1 - i)
+			arr.Elems[i] = Extract(lo+7, lo, kv)
+		}
+		o := x.newObj("pbkdf2.Key", nil, arr)
+		return SliceV{Obj: o, Off: BVi(0, 64), Len: klen, Cap: klen}
+	}
 	o := x.newObj("pbkdf2.Key", nil, nil)
 	o.Kind = OOpaque
 	o.Opq = &OpqExpr{Fn: "pbkdf2", Args: []Value{pw, salt, iter, klen, hname}}
@@ -1612,4 +1633,58 @@ func (x *Exec) fileFill(o *Object, sl SliceV) Value {
 	}
 	x.callLog = append(x.callLog, fmt.Sprintf("%s.Read(%d)", o.Name, n))
 	return TupleV{BVi(int64(n), 64), IfaceV{}}
+}
+
+// ---------------------------------------------------------------- more of norm.Form
+
+func normIsNormalString(x *Exec, fn *ssa.Function, a []Value) Value {
+	f := asTerm(a[0])
+	if !f.IsConst() {
+		panic(unsupported("norm.Form with symbolic form"))
+	}
+	form := norm.Form(f.Int64())
+	var s Value = a[1]
+	if sl, ok := a[1].(SliceV); ok {
+		s = x.bytesToString(sl)
+	}
+	if c, ok := s.(string); ok {
+		return Bool(form.IsNormalString(c))
+	}
+	if form != norm.NFKD {
+		panic(unsupported("IsNormal for a form other than NFKD on symbolic text"))
+	}
+	// normal  <=>  N(s) == s ; for text the structure cannot decide this is an unknown Boolean
+	as := toAtoms(s)
+	if len(as) == 1 && (as[0].K == AOpq || as[0].K == APre) {
+		h := sha256sum([]byte(renderAtoms(as)))
+		return Var(fmt.Sprintf("isnfkd_%x", h[:6]), 0)
+	}
+	return x.strEq(x.strNFKD(s), s)
+}
+
+func normAppendString(x *Exec, fn *ssa.Function, a []Value) Value {
+	var s Value = a[2]
+	if sl, ok := a[2].(SliceV); ok {
+		s = x.bytesToString(sl)
+	}
+	r := normString(x, fn, []Value{a[0], s})
+	dst := a[1].(SliceV)
+	if c, ok := r.(string); ok {
+		return x.builtinAppend(dst, c, nil)
+	}
+	// symbolic text: the result is a fresh byte view of the normalised string when dst is empty
+	if dst.Len.IsConst() && dst.Len.Val.Sign() == 0 {
+		if dst.Obj != nil {
+			x.access(dst.Obj, nil, true) // the backing array is (over)written
+		}
+		return x.stringToBytes(r)
+	}
+	panic(unsupported("norm.Form.AppendString of symbolic text onto a non-empty slice"))
+}
+
+func init() {
+	intrinsicTab["(golang.org/x/text/unicode/norm.Form).IsNormalString"] = normIsNormalString
+	intrinsicTab["(golang.org/x/text/unicode/norm.Form).IsNormal"] = normIsNormalString
+	intrinsicTab["(golang.org/x/text/unicode/norm.Form).AppendString"] = normAppendString
+	intrinsicTab["(golang.org/x/text/unicode/norm.Form).Append"] = normAppendString
 }
